@@ -35,6 +35,8 @@ SUPPRESS = [
 ]
 
 
+META["explanation"] += " " + '(PTR-follow, shared by C08 and C12) sibling cross-check over every delegation `value_->m(...)` in the public members of Value: the member asked of the pointee follows pointers itself (it reads value_) or is the caller; the Is...() predicates asked the one-level private tests.'
+
 def zero_fields_of(mi, fn, depth=0):
     """names of fields of fn's class that are assigned 0/nullptr on the straight-line path of fn (setters followed)"""
     out = set()
@@ -184,6 +186,9 @@ def rule_zero(ctx):
     return r
 
 
+from rules.common import rule_pointer_follow
+
+
 def run(ctx):
     m = ctx.pattern()
     spec = valuetag.value_spec(m)
@@ -200,7 +205,7 @@ def run(ctx):
         t1.suppressions.append({"rule": "TS-value", "function": fn_sig, "construct": construct, "reason": reason, "matched": hit})
     t1.notes.append("%d member functions of Value analysed; kinds %s" % (n, sorted(spec.kinds)))
     from rules.common import rule_overload_pairs, rule_rvalue_use, rule_fast_digits
-    return [t1, tx, rule_zero(ctx), rule_overload_pairs(ctx, m), rule_rvalue_use(ctx, m), rule_recurse(ctx, m), rule_fast_digits(ctx, m), rule_get_filter(ctx, m), rule_merge_filter(ctx, m)]
+    return [t1, tx, rule_zero(ctx), rule_overload_pairs(ctx, m), rule_rvalue_use(ctx, m), rule_recurse(ctx, m), rule_fast_digits(ctx, m), rule_get_filter(ctx, m), rule_merge_filter(ctx, m), rule_pointer_follow(ctx, m)]
 
 
 
